@@ -1,4 +1,5 @@
 import Crv.Proofs.ReaderSafe
+import Crv.Proofs.Skeleton
 /-!
 C07 — Parser totality. Statements about the reader model (`Crv/Reader.lean`) instantiated with the
 caps, masks and guards the translator regenerates from core/asn1parser and crl/crlreader on every run.
@@ -85,5 +86,20 @@ theorem struct_read_consumes (r : Rd) (f : Bytes) (r' : Rd) (h : readStructFrame
 -- Non-vacuity: the panic outcome exists in the model (negative `make` size) and hostile inputs are rejected.
 example : (match readN (-1) { rest := [] } with | .panic _ => true | _ => false) = true := by decide
 example : narrow64 (2 ^ 63) < 0 := by decide
+
+/-- The hand-written `Reader` model this property rests on was transcribed from exactly these sources: the fingerprints are
+recomputed from /repo on every run (tools/extract/skeleton.go), so any change to one of the functions breaks this obligation. -/
+theorem reader_sources_as_transcribed : Crv.Generated.skeletonReader = Crv.Skeleton.expectedReader :=
+  Crv.Skeleton.reader_sources_as_transcribed
+
+/-- The hand-written `Pem` model this property rests on was transcribed from exactly these sources: the fingerprints are
+recomputed from /repo on every run (tools/extract/skeleton.go), so any change to one of the functions breaks this obligation. -/
+theorem pem_sources_as_transcribed : Crv.Generated.skeletonPem = Crv.Skeleton.expectedPem :=
+  Crv.Skeleton.pem_sources_as_transcribed
+
+/-- The hand-written `Chunk` model this property rests on was transcribed from exactly these sources: the fingerprints are
+recomputed from /repo on every run (tools/extract/skeleton.go), so any change to one of the functions breaks this obligation. -/
+theorem chunk_sources_as_transcribed : Crv.Generated.skeletonChunk = Crv.Skeleton.expectedChunk :=
+  Crv.Skeleton.chunk_sources_as_transcribed
 
 end Crv.Props.C07
